@@ -55,7 +55,7 @@ CLAIMS = {
          "reported; a walk in hash order branches on no first-come membership answer (visited-sets), so tabled reasons stay true; nothing reachable from `mos build` calls a process-seeded hasher, the clock, the process / thread identity, the environment or formats an address, and every output file is created truncating, never appended to. File-system enumeration order and thread scheduling are not decided.", "§4 C10"),
  "C11": ("must-pass-through on MIR + two interprocedural label propagations (target vs physical address space)",
          "Single emission choke point with a source-map entry of exactly the emitted length on every path; no comparison or subtraction mixes a target-space address with "
-         "a physical one without the relocation offset; macro re-attribution only under the listing option and by position; half-open address lookups; no context field is overwritten before and read after a nested activation of the code generator without being restored (re-entrancy analysis); listing rows are cut at address gaps, read from the entry's own segment and written to distinct files; the row without bytes and the rows with bytes are decided on the same collection (every source line gets a row); no collection there is keyed by a target address alone; the source map is append-only as long as entries are addressed by position; distinct source paths inside the project get distinct listing files. Row layout on concrete programs is not decided.", "§4 C11"),
+         "a physical one without the relocation offset; macro re-attribution only under the listing option and by position; half-open address lookups; no context field is overwritten before and read after a nested activation of the code generator without being restored (re-entrancy analysis); listing rows are cut at address gaps, read from the entry's own segment and written to distinct files; the row without bytes and the rows with bytes are decided on the same collection (every source line gets a row); no collection there is keyed by a target address alone; the source map is append-only as long as entries are addressed by position; distinct source paths inside the project get distinct listing files; a listing row is labelled with the address of its own first byte, not a running one. Row layout on concrete programs is not decided.", "§4 C11"),
  "C12": ("formatter coverage and trivia-carrier rules on typed HIR + dominance on MIR",
          "Every text-carrying field of every AST variant is emitted; a Located emitted through `.data` is the token's leading element or tabled (so its comments cannot be lost); "
          "both comment kinds become comment chunks and only blank lines are suppressed; `mos format` writes only after the whole project parsed; a chunk-dropping decision never depends on the text of the line; no Located value of an argument list is written through its data alone and no trivia list is copied selectively by item kind; a joined line is replaced by a part of itself only where the rest is blank; files opened for writing are truncated; a line break is dropped only on conditions over the line being built. Token-sequence and byte "
